@@ -58,6 +58,16 @@ def _build():
         for pb in ("first", "mid", "last"):
             _reg(S.schema2("cat_%s_x_cat_%s" % (pa, pb), A[pa], B[pb], weighted=True), W, quick=3, thorough=4)
     _reg(S.schema2("cat_x_cat3_unw", A["last"], B3), quick=3, thorough=5)
+    # weights within a few 1e-6 of 1: still a weighted response
+    _reg(S.schema2("cat_x_cat_w_near1", A["mid"], B["first"], weighted=True), (1.000004, 0.999997), quick=3, thorough=4)
+    # a categorical array whose categories carry an explicit "selected": false (a Yes/No grid is not a dichotomy)
+    from mc.model import CAVar as _CAVar
+    _c0 = S.ca("g", 2, 2, "last")
+    _cg = _CAVar(_c0.alias, _c0.items, [
+        {"id": 1, "name": "Yes", "missing": False, "numeric_value": 1, "selected": False},
+        {"id": 0, "name": "No", "missing": False, "numeric_value": 0, "selected": False},
+        {"id": -1, "name": "No Data", "missing": True, "numeric_value": None, "selected": False}])
+    _reg(Schema("ca_selfalse_items_x_cats", [_cg], [("ca_items", 0), ("ca_cats", 0)]), quick=3, thorough=4)
     # categories re-ordered by `type.order` (the data follows that order, the category list does not)
     from mc.model import CatVar
     AO = CatVar("a", A["mid"].cats, type_order=[2, -1, 1])
